@@ -188,6 +188,6 @@ SUBS = [
 
 MANIFEST = {
     "technique": "property-based testing with a derived-pair generator: Ace.shadow_of answers checked against exact packet-set inclusion computed by an independent reference (refsem), plus a metamorphic monotonicity relation over skip options",
-    "text": "exploration: over thousands (quick) / 200 000 (thorough) generated ordered pairs x 5 skip lists, every True answer was confirmed as same action + exact inclusion by interval and bit algebra (no packet sampling), and no answer turned from False to True when a skip option was added",
+    "text": "exploration: over thousands (quick) / 200 000 (thorough) generated ordered pairs x 5 skip lists, every True answer was confirmed as same action + exact inclusion by interval and bit algebra (no packet sampling), and no answer turned from False to True when a skip option was added; query / in-place member edit / query histories must answer for the current members and agree with freshly built objects",
     "note": "trusted: lib/refsem.py inclusion algebra and its flag/port conventions; bounded to k<=4 non-contiguous bits and <=4 group members; a ValueError from shadow_of is counted as 'no answer'",
 }
